@@ -48,6 +48,10 @@ func vfGenCfg(t *rapid.T, p *vfProfile) vfCfg {
 	}
 	if p.roomy || (!p.pressure && rapid.Bool().Draw(t, "roomy")) {
 		c.MaxCost = 1 << 40
+		if p.roomy && rapid.Bool().Draw(t, "snug") {
+			// everything fits, but only just: the sum of the largest cost every key can ever have
+			c.MaxCost = int64(c.Keys)*(vfRoomyMaxCost+itemSize) + int64(rapid.IntRange(0, 3).Draw(t, "snugslack"))
+		}
 	}
 	c.NumCounters = int64(rapid.SampledFrom([]int{2, 8, 64, 100, 1024}).Draw(t, "numCounters"))
 	c.BufferItems = int64(rapid.SampledFrom([]int{1, 1, 2, 4, 64}).Draw(t, "bufferItems"))
@@ -59,6 +63,9 @@ func vfGenCfg(t *rapid.T, p *vfProfile) vfCfg {
 	c.BucketSecs = int64(rapid.SampledFrom([]int{1, 1, 5}).Draw(t, "bucket"))
 	return c
 }
+
+// vfRoomyMaxCost is the largest explicit cost the roomy profiles generate (Config.Cost yields at most 5).
+const vfRoomyMaxCost = 9
 
 type vfGen struct {
 	p     *vfProfile
@@ -109,7 +116,7 @@ func (g *vfGen) cost(t *rapid.T, s *vfSM) int64 {
 		if rapid.IntRange(0, 4).Draw(t, "zerocost") == 0 {
 			return 0
 		}
-		return int64(rapid.IntRange(1, 9).Draw(t, "cost"))
+		return int64(rapid.IntRange(1, vfRoomyMaxCost).Draw(t, "cost"))
 	}
 	switch rapid.IntRange(0, 11).Draw(t, "costmode") {
 	case 0:
@@ -305,6 +312,7 @@ func (g *vfGen) scenario(t *rapid.T, s *vfSM) vfOp {
 type vfOutcome struct {
 	viol     *vfViol
 	diverged string
+	resynced int
 	sm       *vfSM
 }
 
@@ -339,6 +347,12 @@ func vfRunCase(c *vfCase, next func(s *vfSM) *vfOp) (out vfOutcome) {
 		}
 		vs := s.exec(op)
 		if v, d := vfPick(vs, c.Profile); v != nil || d != "" {
+			if v == nil && s.resync(vs) {
+				// another property's accounting assertion failed; the model took over the cache's own
+				// numbers, so this property's assertions stay meaningful: carry on
+				out.resynced++
+				continue
+			}
 			out.viol, out.diverged = v, d
 			return
 		}
@@ -449,6 +463,9 @@ func vfCacheProperty(ev *vfEvidence, profile string) func(t *rapid.T) {
 		if out.diverged != "" {
 			ev.Excluded("diverged_other=" + out.diverged)
 			return
+		}
+		if out.resynced > 0 {
+			ev.Excluded("continued_after_other=C03-accounting(resynced)")
 		}
 		nt, cl := vfNonTrivial(profile, &out.sm.st)
 		ev.Case(nt, vfCaseHash(c), cl...)
